@@ -5,6 +5,7 @@ const WINDOW: Duration = Duration::from_millis(6000);
 const SIZE: usize = (WINDOW.as_millis() / RESOLUTION.as_millis()) as usize;
 
 #[derive(Debug, Default)]
+#[cfg_attr(feature = "verif", derive(Clone))]
 pub struct ConnectionStats {
     packets_sent: [u64; SIZE],
     packets_acked: [u64; SIZE],
